@@ -284,6 +284,34 @@ def counts_admissible(coal, grid, counts):
     return carry == 0, sides
 
 
+HARNESS_DIR = str(Path(__file__).resolve().parent)
+
+
+def observe(ck, what, fn):
+    """read something OFF a library object (an attribute, an accessor) — never the property's observable itself.
+    Names of attributes are not part of what is verified: when the read fails (AttributeError / TypeError / KeyError /
+    IndexError) the observation is simply unavailable — bucketed and noted, never a violation, never a mismatch.
+    -> (available, value)"""
+    try:
+        return True, fn()
+    except (AttributeError, TypeError, KeyError, IndexError) as e:
+        ck.bucket(f"observation-unavailable/{what}")
+        note = f"observation unavailable ({what}): {type(e).__name__}: {str(e)[:100]}"
+        if note not in ck.notes:
+            ck.notes.append(note)
+        return False, None
+
+
+def harness_introspection(e):
+    """an AttributeError raised by a line of the HARNESS (innermost frame in harness/) on something that is not an
+    unusable output (None): the harness looked for a name the object does not have — not a finding"""
+    import traceback
+
+    tb = traceback.extract_tb(e.__traceback__)
+    return (isinstance(e, AttributeError) and tb and tb[-1].filename.startswith(HARNESS_DIR) and "'NoneType'" not in str(e))
+
+
+
 class Runner:
     def __init__(self, ck, drv):
         self.ck, self.drv, self.fail = ck, drv, {}
@@ -301,6 +329,9 @@ class Runner:
             if isinstance(e, InfraError):
                 raise
             tb = traceback.extract_tb(e.__traceback__)[-1]
+            if harness_introspection(e):
+                self.ck.mismatch(f"{name}: the harness could not observe an object ({type(e).__name__}: {str(e)[:120]} at {tb.name}:{tb.lineno})", {"check": name})
+                return
             case = next((x for x in a if isinstance(x, dict)), {"what": name})
             self.violation(f"{name}:unusable-output",
                            f"{name}: the implementation's output could not be used ({type(e).__name__}: {str(e)[:120]} at {tb.name}:{tb.lineno})",
@@ -450,14 +481,20 @@ class Runner:
             self.violation(f"GMRFGammaIntegrated:{variant}:raises", f"GMRFGammaIntegrated raises {type(e).__name__}: {str(e)[:120]}", case, n)
             return
         a, b = mp.mpf(float(case["shape"])), mp.mpf(float(case["rate"]))
-        g, _ = build_gmrf(dict(case, tau=F(1)))
+        from torchtree import Parameter
+        from torchtree.distributions.gmrf import GMRF
+
+        # the harness keeps its OWN handle on the precision parameter it passes in (no attribute of the object is read)
+        prec_handle = Parameter("precision", T([F(1)]))
+        g = GMRF("gmrf", Parameter("field", T(case["field"])), prec_handle, tree_for(case, False) if variant in ("T0", "T1") else None,
+                 T(case["weights"]) if variant == "W" else None, variant == "T1")
         d = n - 1
         # S/2 read off the implementation's own value at tau = 1: log p = d/2 log tau - tau S/2 - d/2 log 2 pi
         lp1 = mp.mpf(float(g().reshape(-1)[0]))
         S2 = -(lp1 + mp.mpf(d) / 2 * mp.log(2 * mp.pi))
         if impl_in_loop:
             def logdens(t):
-                g.precision.tensor = T([float(t)])
+                prec_handle.tensor = T([float(t)])
                 return mp.mpf(float(g().reshape(-1)[0]))
         else:
             def logdens(t):
